@@ -17,7 +17,7 @@ RULE = ("every node returned by (a) random generated queries (with and without f
         "at the very object node.value (identity); node.path() equals the RFC 9535 normalized path of that location computed by the "
         "independent renderer (single quotes; only \\b \\f \\n \\r \\t \\' \\\\ and lower-case \\u00xx escapes; non-negative indices); "
         "find(node.path(), value) returns exactly that one node; values()/paths()/items() agree with the nodes, also after the node list was reversed / sorted in place and restored. One case in twenty follows a compile that was rejected half-way through a quoted name on the same environment. Non-trivial: location of "
-        "length >= 2 or a name that needs an escape; distinct by (document, location).")
+        "length >= 2 or a name that needs an escape; distinct by (document, location). A concurrent part lets 4-8 threads ask the nodes of same-shaped documents for path() / paths() / items() at the same time (GIL hand-offs injected on package lines); every answer equals the sequential one.")
 ASSUMPTIONS = ["normalized path syntax per RFC 9535 2.7 as transcribed in vf/oracle/strings.py", "lone surrogates in member names are out of domain"]
 DECIDING_MONITORS = ["M-node"]
 
@@ -117,12 +117,59 @@ def plan(tier, seed, nproc, scale):
         chunks = 128
         span = 0x110000 // chunks
         specs += [{"kind": "names", "seed": "%d/n%d" % (seed, i), "mode": "list", "lo": i * span, "hi": (i + 1) * span} for i in range(chunks)]
+    specs += [{"kind": "threads", "seed": "%d/t%d" % (seed, i), "runs": 2 if tier == "quick" else 30} for i in range(4 if tier == "quick" else shards)]
     return specs
+
+
+def thread_part(jp, rec, R, spec):
+    """Several threads ask nodes of same-shaped documents for path(), location and the node-list helpers at the same time
+    (GIL hand-offs injected on lines of the package): every answer equals the one given sequentially."""
+    from ..threads import run_threads
+    for run in range(spec["runs"]):
+        docs = [{"k": [{"a b": [i, {"c'd": [j for j in range(3)]}], "e\\f": {"g": i}} for i in range(4)], "n": {"x": [[1, 2], [3]]}} for _ in range(2)]
+        lists = [jp.find(t, d) for d in docs for t in ("$..*", "$.k[*]['a b'][1]..*", "$..[?@]")]
+        want = [[(tuple(n.location), S.normalized_path(n.location)) for n in nl] for nl in lists]
+        nthreads = R.choice([4, 6, 8])
+        got = [[] for _ in range(nthreads)]
+        orders = [R.sample(range(len(lists)), len(lists)) for _ in range(nthreads)]
+
+        def work(k):
+            for rep in range(2):
+                for li in orders[k]:
+                    nl = lists[li]
+                    ps = [n.path() for n in (nl if rep % 2 == 0 else reversed(nl))]
+                    if rep % 2:
+                        ps.reverse()
+                    got[k].append((li, ps, nl.paths(), [p for p, _ in nl.items()]))
+        hung, switches, sites, errors = run_threads(jp, "%s/%d" % (spec["seed"], run), nthreads, work, R.choice([0.05, 0.2, 0.5]))
+        if hung:
+            rec.timeout("thread run %d did not finish" % run)
+            continue
+        rec.feat("thread-runs")
+        rec.feat("thread-switches-inside-package", switches)
+        rec.case(("threads", spec["seed"], run), switches > 0)
+        for k_, name, msg in errors:
+            rec.violation("concurrent-path-raises-" + name, {"thread": k_, "message": msg})
+        bad = None
+        for k in range(nthreads):
+            for li, ps, ps2, ps3 in got[k]:
+                rec.monitor("M-node", len(ps))
+                exp = [p for _, p in want[li]]
+                for name, obs in (("path()", ps), ("paths()", ps2), ("items()", ps3)):
+                    if obs != exp and bad is None:
+                        i_ = next((i for i, (a, b) in enumerate(zip(obs, exp)) if a != b), 0)
+                        bad = {"helper": name, "location": jsonable(list(want[li][i_][0])), "path_observed_concurrently": obs[i_] if i_ < len(obs) else None,
+                               "path_sequential": exp[i_], "threads": nthreads, "switches_inside_package": switches}
+        if bad:
+            rec.violation("concurrent-path-differs", bad)
 
 
 def run_shard(spec, rec):
     import jsonpath_rfc9535 as jp
     R = random.Random(spec["seed"])
+    if spec["kind"] == "threads":
+        thread_part(jp, rec, R, spec)
+        return
     if spec["kind"] == "random":
         for _ in range(spec["n"]):
             cfg = G.Cfg(filters=R.random() < 0.5, regex_functions=False, max_depth=2, max_segments=4)
@@ -210,6 +257,10 @@ def run_shard(spec, rec):
 def finish(m, tier):
     m["extra"]["exhaustive_scope"] = ("member-name sweep over " + ("U+0000-U+2FFF (plus samples)" if tier == "quick" else "every Unicode scalar value")
                                       + "; random queries are sampled")
+    sw = m["features"].get("thread-switches-inside-package", 0)
+    m["extra"]["thread_switches_inside_package"] = sw
+    if m["features"].get("thread-runs", 0) and sw == 0:
+        return ["the concurrent part observed no thread switch inside package code"]
     return []
 
 
